@@ -15,14 +15,26 @@
 //   tangent to the r-circle about the corner, and Clipper squares off over-limit miters the same way, so
 //   the full r-disc about every corner is covered; nothing weaker than the property text is needed.
 // lower(q) = r for Round when the nearest point of A is interior to an edge (perpendicular foot strictly
-//   inside an edge piece); lower(q) = r*cos(pi/N) when the nearest point of A is a corner, N = tolerance =
-//   points per full circle.  Derivation: offset() sets ArcTolerance = d*scaling*(1-cos(pi/N)); ClipperOffset
-//   turns ArcTolerance y into steps = pi/acos(1-y/|delta|) = N vertices per circle placed ON the r-circle,
-//   so a chord spanning 2pi/N stays r*cos(pi/N) away from the corner ("d up to the arc resolution").
+//   inside an edge piece); lower(q) = r*cos(1.5*pi/N) when the nearest point of A is a corner, N = tolerance
+//   = points per full circle.  Derivation: offset() sets ArcTolerance = d*scaling*(1-cos(pi/N)); ClipperOffset
+//   turns ArcTolerance y into steps = pi/acos(1-y/|delta|) = N vertices per circle placed ON the r-circle;
+//   DoRound then emits round(N*angle/2pi) chords of angular size 2pi/N plus one closing chord, which may
+//   span up to 1.5 nominal steps.  The property gives no number for the must-cover side ("d for round joins
+//   up to the arc resolution"), and the coordinator adjudicated that the library's arc resolution is this
+//   1.5-step closing chord; demanding cos(pi/N) would demand more than the property says.  Anything coarser
+//   than 1.5 steps still fails as must_cover.  Corner-nearest samples that are left uncovered between
+//   r*cos(1.5pi/N) and r*cos(pi/N) are counted (round_gap:<join>:ratio_<rho/r to 2 decimals>), so the
+//   observed worst ratio is in the evidence (theory: 0.83 for N=8, 0.989 for N=32).
 //   For d<0 the expression is negative, Clipper falls back to its default 0.25 grid units, i.e. arcs are
 //   finer than requested; the same lower bound is then merely loose.
-//   A must-cover failure with rho in [r*cos(1.5pi/N), r*cos(pi/N)) is reported under its own class
-//   "round_arc_resolution" (DoRound rounds the step count, so the last chord may span up to 1.5 steps).
+// ErrorCode: the property speaks about the covered region only.  A non-NoError return whose result still
+//   satisfies every must-cover / must-not-cover sample is NOT a violation of this property (coordinator
+//   adjudication); it is counted as error_code_with_region_ok and noted.  Observed on the unchanged tree:
+//   BooleanError for ring+rectangle pairs, d=-0.5 = half the wall, Bevel, use_union=true (Clipper nests a
+//   result piece as a "hole" of another contour through zero-width bridges; link_holes cannot link it).
+//   When region samples of the same case also fail, an additional violation of class error_code is emitted.
+// Violation classes: must_cover, must_not_cover, overlap, error_code (only together with failing samples),
+//   partition_disagree, partition_area, crash:*, hang.
 // Internal edges (gdstk documentation: "the effects of internal polygon edges ... can be suppressed by
 //   setting use_union to true"): with use_union=false and d<0 a zero-width slit of a key-holed polygon is
 //   treated by gdstk as boundary, as documented.  Samples within R+g of an internal edge piece are
@@ -30,7 +42,7 @@
 //   interpretation decision) touching/overlapping pairs are not in the alphabet for d<0 without union,
 //   and disjoint pairs are judged under sub-check "offset.pairs" only when gap > 2|d| + grid; disjoint
 //   pairs with a smaller gap are still executed and judged, under sub-check "offset.pairs_neargap".
-// ErrorCode != NoError is a violation.  Overlap between result polygons (two result polygons with
+// Overlap between result polygons (two result polygons with
 //   non-zero winding at a sample) is a violation with use_union=true, a counter otherwise.
 // Union option: members of one partition family (same region, different polygons) are offset with
 //   use_union=true and must agree at every sample farther than g from both results' boundaries, and in
@@ -322,7 +334,7 @@ static int64_t judge(const Group& G, const c13::Field& F, const Cfg& c, const Re
     const int64_t S = (int64_t)sc;
     const double r = fabs(c.d), Rr = r * J.reach, g = 3.0 / sc + 1e-9;
     const bool grow = c.d > 0, round = J.j == OffsetJoin::Round;
-    const double cN = round ? cos(M_PI / J.tol) : 1.0, cN15 = round ? cos(1.5 * M_PI / J.tol) : 1.0;
+    const double cNom = round ? cos(M_PI / J.tol) : 1.0, cN = round ? cos(1.5 * M_PI / J.tol) : 1.0;
     const bool slit_dc = !grow && !c.uni && !G.pc.internal.empty();
     std::string replay = "sub=" + sub + " spec=" + spec_of(G.shapes) + " " + cfg_str(c) + fmt(" r=%d", F.r);
     JFields tags = {{"sign", jstr(grow ? "pos" : "neg")}, {"join", jstr(J.name)}, {"use_union", jbool(c.uni)},
@@ -351,6 +363,11 @@ static int64_t judge(const Group& G, const c13::Field& F, const Cfg& c, const Re
             eg::P q = sample_pt(i, j, F.r, S);
             bool on_b;
             int cc = cover_count(res, q, on_b);
+            if (expG == -1 && round && corner && rho < r * cNom - g) {
+                // between the 1.5-step bound and the nominal N-points-per-circle bound: record what is left out
+                bool inG = grow ? (cc > 0 || on_b) : !(cc > 0 || on_b);
+                if (!inG) R->count(fmt("round_gap:%s:ratio_%.2f", J.name, floor(rho / r * 100) / 100));
+            }
             if (cc >= 2) {
                 if (c.uni) {
                     Bad& b = bad["overlap"];
@@ -363,7 +380,6 @@ static int64_t judge(const Group& G, const c13::Field& F, const Cfg& c, const Re
             if (expect_cov) t.must_cover++; else t.must_not++;
             if (covered == expect_cov) continue;
             std::string cls = expect_cov ? "must_cover" : "must_not_cover";
-            if (expG == 1 && round && corner && rho >= r * cN15 - g) cls = grow ? "round_arc_resolution" : "round_arc_resolution_neg";
             Bad& b = bad[cls];
             if (!b.n++)
                 b.first = fmt("sample (%.6Lf,%.6Lf) %s region; distance to %s = %.9g (%s); |d|=%g lower=%.9g reach R=%.9g guard=%.3g; result %s it",
@@ -380,16 +396,18 @@ static int64_t judge(const Group& G, const c13::Field& F, const Cfg& c, const Re
                      kv.second.first + fmt("; %lld sample(s) of this class in the case; result=", (long long)kv.second.n) + result_json(res, sc), replay);
     }
     if (res.ec != ErrorCode::NoError) {
-        // tags let a known-finding entry be specific: geometry judged fine or not, and whether an exact
-        // collapse to zero width is possible at all on lattice input (2|d| integral)
-        JFields tg = tags;
-        tg.push_back({"kind", jstr("error_code")});
-        tg.push_back({"error_code", jint((int)res.ec)});
-        tg.push_back({"samples_ok", jbool(nbad == 0)});
-        tg.push_back({"two_d_integral", jbool(fabs(2 * r - nearbyint(2 * r)) < 1e-12)});
-        R->violation(sub, "error_code", tg, cj, fmt("offset returned ErrorCode %d (1 = BooleanError: a hole of the result could not be linked to its outer contour); %lld violating sample(s); result=", (int)res.ec, (long long)nbad) + result_json(res, sc), replay);
+        if (nbad == 0) {
+            // region is fine at every judged sample: not a violation of this property, counted and noted
+            R->count("error_code_with_region_ok");
+            static int noted = 0;
+            if (!noted++) R->note("offset returned ErrorCode " + std::to_string((int)res.ec) + " although every judged sample is satisfied (counter error_code_with_region_ok): " + spec_of(G.shapes) + " " + cfg_str(c));
+        } else {
+            JFields tg = tags;
+            tg.push_back({"kind", jstr("error_code")});
+            tg.push_back({"error_code", jint((int)res.ec)});
+            R->violation(sub, "error_code", tg, cj, fmt("offset returned ErrorCode %d (1 = BooleanError: a hole of the result could not be linked to its outer contour) and %lld region sample(s) fail; result=", (int)res.ec, (long long)nbad) + result_json(res, sc), replay);
+        }
         if (VERBOSE) fprintf(stderr, "ErrorCode %d\n", (int)res.ec);
-        nbad++;
     }
     if (VERBOSE) {
         fprintf(stderr, "case %s %s\n  result (%zu polygons): %s\n  violating samples: %lld\n", spec_of(G.shapes).c_str(), cfg_str(c).c_str(), res.polys.size(), result_json(res, sc).c_str(), (long long)nbad);
@@ -447,18 +465,18 @@ static void canon_translate(std::vector<Shape>& g) {
     for (auto& s : g) s = translated(s, (int)-mx, (int)-my);
 }
 // single shapes; all_positions=false keeps one representative per translation class (bbox min at origin)
-static std::vector<std::vector<Shape>> singles(const std::string& cls, bool all_positions, bool both_orient) {
+static std::vector<std::vector<Shape>> singles(const std::string& cls, bool all_positions, bool both_orient, int lat = LAT) {
     std::vector<std::vector<Shape>> out;
     std::vector<Shape> base;
     if (cls == "rect") {
         for (int w = 1; w <= LAT; w++) for (int h = 1; h <= LAT; h++) base.push_back(rect(0, 0, w, h));
     } else if (cls == "L") {
-        for (int w = 2; w <= LAT; w++) for (int h = 2; h <= LAT; h++)
+        for (int w = 2; w <= lat; w++) for (int h = 2; h <= lat; h++)
             for (int c = 0; c < 4; c++) for (int nw = 1; nw < w; nw++) for (int nh = 1; nh < h; nh++) base.push_back(lshape(0, 0, w, h, c, nw, nh));
     } else if (cls == "tri") {
-        int n = (LAT + 1) * (LAT + 1);
+        int n = (lat + 1) * (lat + 1);
         for (int a = 0; a < n; a++) for (int b = a + 1; b < n; b++) for (int c = b + 1; c < n; c++) {
-            eg::P A = {a / (LAT + 1), a % (LAT + 1)}, B = {b / (LAT + 1), b % (LAT + 1)}, C = {c / (LAT + 1), c % (LAT + 1)};
+            eg::P A = {a / (lat + 1), a % (lat + 1)}, B = {b / (lat + 1), b % (lat + 1)}, C = {c / (lat + 1), c % (lat + 1)};
             eg::i128 cr = eg::cross(A, B, C);
             if (cr == 0) continue;
             if (std::min({A.x, B.x, C.x}) != 0 || std::min({A.y, B.y, C.y}) != 0) continue;
@@ -495,7 +513,7 @@ static std::vector<std::vector<Shape>> singles(const std::string& cls, bool all_
 static std::vector<Shape> pair_bases(bool thorough) {
     std::vector<Shape> b;
     if (!thorough) {
-        b = {rect(0, 0, 1, 1), rect(0, 0, 2, 1), rect(0, 0, 1, 3),
+        b = {rect(0, 0, 1, 1), rect(0, 0, 2, 1),
              lshape(0, 0, 2, 2, 0, 1, 1),
              tri({0, 0}, {2, 1}, {1, 3}),
              ring(0, 0, 3, 3, 1, 1, 2, 2)};
@@ -734,18 +752,18 @@ int main(int argc, char** argv) {
         G.free_all();
         return run.finish();
     }
-    run.note("lower bound factor for round joins: cos(pi/8)=0.92388, cos(pi/32)=0.99518 (corner-nearest samples only); guard g=3/scaling; see header of harness/c13.cpp");
+    run.note("lower bound factor for round joins at corner-nearest samples: cos(1.5*pi/N) = 0.83147 (N=8), 0.98918 (N=32) - Clipper's closing chord spans up to 1.5 steps; nominal cos(pi/N) = 0.92388 / 0.99518; samples left uncovered in between are counted as round_gap:<join>:ratio_<rho/|d|>; guard g=3/scaling");
+    run.note("a non-NoError return whose result satisfies every judged sample is counted as error_code_with_region_ok, not reported as a violation (the property speaks about the covered region only)");
     int r1 = T ? 4 : 2;
     // single shapes, smallest first
     run_groups("offset.single.rect", T ? "all 225 lattice rectangles on {0..5}^2, both orientations" : "25 rectangles w,h in 1..5 (one per translation class), both orientations", singles("rect", T, true), r1);
     run_groups("offset.single.ring", "100 key-holed rings: outer [0,W]x[0,H], W,H in 3..5, every lattice hole with wall >= 1, built by boolean Not", singles("ring", false, false), r1);
     run_families(r1);
-    run_groups("offset.single.L", T ? "all 1600 L shapes (every position), both orientations" : "400 L shapes (bounding box 2..5, every notch, 4 corners; one per translation class)", singles("L", T, T), r1);
+    run_groups("offset.single.L", T ? "all 1600 L shapes (every position), both orientations" : "144 L shapes (bounding box 2..4, every notch, 4 corners; one per translation class)", singles("L", T, T, T ? LAT : 4), r1);
     if (T) run_groups("offset.single.tri_fine", "all non-degenerate lattice triangles on {0..5}^2, one per translation class, counter-clockwise, refinement 4", singles("tri", false, false), 4);
-    run_groups("offset.single.tri", T ? "all non-degenerate lattice triangles on {0..5}^2 at every position, both orientations" : "all non-degenerate lattice triangles on {0..5}^2, one per translation class, counter-clockwise", singles("tri", T, T), T ? 2 : 2);
+    run_groups("offset.single.tri", T ? "all non-degenerate lattice triangles on {0..5}^2 at every position, both orientations" : "all non-degenerate lattice triangles on {0..4}^2, one per translation class, counter-clockwise", singles("tri", T, T, T ? LAT : 4), 2);
     {
         auto P = pairs(T);
-        if (getenv("C13_COUNT")) fprintf(stderr, "pairs=%zu tri=%zu L=%zu rect=%zu\n", P.size(), singles("tri", T, T).size(), singles("L", T, T).size(), singles("rect", T, T).size());
         run_groups("offset.pairs", fmt("%zu pairs (every placement of %zu base shapes on {0..5}^2, unordered, one per translation class: disjoint, touching, overlapping, nested); d<0 without union only for disjoint pairs",
                                        P.size(), pair_bases(T).size()), P, 2);
     }
